@@ -257,10 +257,17 @@ def check_everyn_bound(ctx, repo, rule):
     """every-n placement: the positions used to pick breakpoints out of x are bounded by nx - 1."""
     f = repo.func(BSPLINE, 'bspline.__init__')
     fa = FA(f)
-    picks = [n for n in walk_local(f.node) if isinstance(n, ast.Subscript) and src(n.value) == 'x' and isinstance(n.slice, ast.Name)
+    picks = [n for n in walk_local(f.node) if isinstance(n, ast.Subscript) and isinstance(n.slice, ast.Name) and isinstance(n.ctx, ast.Load)
+             and 'x' in {y.id for y in ast.walk(fa.deep(n.value) if isinstance(n.value, ast.Name) else n.value) if isinstance(y, ast.Name)}
              and any(isinstance(a, ast.If) and 'everyn' in src(a.test) for a in ancestors(n))]
     ctx.need(picks, 'bspline.__init__: every-n pick x[<positions>] not found')
     for pk in picks:
+        base = fa.deep(pk.value) if isinstance(pk.value, ast.Name) else pk.value
+        bs = src(base).replace(' ', '')
+        is_sorted = (isinstance(base, ast.Call) and call_name(base) in ('sort', 'sorted')) or bs in ('x[x.argsort()]', 'x[np.argsort(x)]')
+        ctx.check(rule, is_sorted, f, pk, 'every-n breakpoints are picked out of the sorted abscissae (%s)' % src(base)[:40],
+                  msg='the every-n breakpoints are `%s[...]`: positions count data points in the caller\'s order, so for unsorted x the knot vector '
+                      'is not non-decreasing' % src(pk.value)[:30], construct='every-n pick from unsorted ' + src(pk.value)[:30])
         forms = [(d, v) for d, v in fa.defs(pk.slice) if v is not None]
         bad = []
         for d, v in forms:
@@ -798,3 +805,43 @@ def check_iterfit_loop(ctx, repo):
     sc = [st for st in sc if st.lineno > lp.end_lineno]        # (early exits scatter too; this obligation is about the normal path)
     ctx.check('C10.LOOP', len(sc) == 1 and src(sc[0].value) == 'maskwork', f, sc[0] if sc else lp,
               'after the loop the working mask is scattered back: outmask[xsort] = maskwork', msg='the final un-sort of the mask is missing or altered', construct='final scatter')
+
+
+FLOATS = {'float64', 'float32', 'float', 'float_', 'double', 'longdouble', 'd', 'f8', 'f4', 'f'}
+
+
+def floating_dtype(e, fa, depth=0):
+    """True when the dtype expression is floating whatever the type of the data it may be derived from."""
+    if isinstance(e, ast.Constant):
+        return e.value in FLOATS
+    d = dotted(e)
+    if d and d.split('.')[-1] in FLOATS:
+        return True
+    if isinstance(e, ast.Call) and call_name(e) in ('result_type', 'promote_types'):
+        return any(floating_dtype(a, fa, depth + 1) for a in e.args)
+    if isinstance(e, ast.Name) and depth < 4:
+        ds = fa.defs(e)
+        return bool(ds) and all(v is not None and floating_dtype(v, fa, depth + 1) for d_, v in ds)
+    return False
+
+
+def check_float_work(ctx, repo, rule):
+    """The arrays that receive basis values (bsplvn) and spline values (value) are floating whatever the dtype of the evaluation
+    points: with dtype=x.dtype integer abscissae truncate every basis value to 0 or 1, and a dtype borrowed from the breakpoints
+    truncates for whole-number breakpoint arrays."""
+    n = 0
+    for q in ('bspline.bsplvn', 'bspline.value'):
+        f = repo.func(BSPLINE, q)
+        fa = FA(f)
+        for c in walk_local(f.node):
+            if isinstance(c, ast.Call) and call_name(c) in ('zeros', 'ones', 'empty') and any(k.arg == 'dtype' for k in c.keywords):
+                dt = [k.value for k in c.keywords if k.arg == 'dtype'][0]
+                if isinstance(dt, ast.Constant) and isinstance(dt.value, str) and dt.value[:1] in 'iub?':
+                    continue              # index / mask arrays
+                if dotted(dt) and dotted(dt).split('.')[-1] in ('bool', 'bool_', 'int32', 'int64', 'intp'):
+                    continue
+                n += 1
+                ctx.check(rule, floating_dtype(dt, fa), f, c, '%s: work array `%s` is floating for every input type' % (q, src(c)[:60]),
+                          msg='%s allocates `%s`: the dtype is inherited from the data (%s), so integer evaluation points or whole-number breakpoints '
+                              'truncate the basis / spline values to integers' % (q, src(c)[:70], src(dt)), construct='%s work dtype %s' % (q, src(dt)))
+    ctx.need(n >= 2, 'bsplvn / value: work array allocations not found')
